@@ -399,3 +399,103 @@ func CallBody(name string, params []scen.Param, returns string) string {
 
 // RtImports are the imports an instrumented controller package needs.
 var RtImports = []string{"context", "fmt", scen.ModulePath + "/rec"}
+
+// CaseRun is the share of one pack run that belongs to one scenario.
+type CaseRun struct {
+	Case scen.Case
+	Run  *Run // shared by every scenario of the same (possibly bisected) pack
+	Reqs []Request
+	Solo bool // the scenario ended up alone in its project
+}
+
+// Failed reports whether the pack produced no servable binary (rejected, not compilable, registration panic).
+func (r *Run) Failed() bool {
+	return !r.Worker.Accepted() || r.BuildErr != "" || len(r.Routes) < len(Engines) || len(r.RegErr) > 0
+}
+
+// RunCases packs the scenarios, generates/compiles/drives each pack (bisecting failing packs down to single
+// scenarios) and returns one CaseRun per scenario. Scenarios not run because of the deadline are returned with Run == nil.
+func RunCases(scratch string, cases []scen.Case, packSize, parallel int, instrument func(scen.Case) scen.Unit, reqsFor func(scen.Case) []Request,
+	cfgPatch map[string]any, flags Flags, deadline time.Time) []CaseRun {
+	var packs [][]scen.Case
+	for i := 0; i < len(cases); i += packSize {
+		j := i + packSize
+		if j > len(cases) {
+			j = len(cases)
+		}
+		packs = append(packs, cases[i:j])
+	}
+	var runPack func(cs []scen.Case, tag string) []CaseRun
+	runPack = func(cs []scen.Case, tag string) []CaseRun {
+		var units []scen.Unit
+		var reqs []Request
+		per := make([][]Request, len(cs))
+		for i, c := range cs {
+			units = append(units, instrument(c))
+			if reqsFor != nil {
+				per[i] = reqsFor(c)
+				reqs = append(reqs, per[i]...)
+			}
+		}
+		dir := filepath.Join(scratch, tag)
+		r := RunPack(dir, units, cfgPatch, flags, reqs)
+		os.RemoveAll(dir)
+		if r.Failed() && len(cs) > 1 {
+			mid := len(cs) / 2
+			return append(runPack(cs[:mid], tag+"a"), runPack(cs[mid:], tag+"b")...)
+		}
+		var out []CaseRun
+		for i, c := range cs {
+			out = append(out, CaseRun{Case: c, Run: r, Reqs: per[i], Solo: len(cs) == 1})
+		}
+		return out
+	}
+	results := make([][]CaseRun, len(packs))
+	scen.Pool(parallel, len(packs), func(i int) {
+		if time.Now().After(deadline) {
+			for _, c := range packs[i] {
+				results[i] = append(results[i], CaseRun{Case: c})
+			}
+			return
+		}
+		results[i] = runPack(packs[i], fmt.Sprintf("pack%04d", i))
+	})
+	var out []CaseRun
+	for _, r := range results {
+		out = append(out, r...)
+	}
+	return out
+}
+
+// Calls extracts the CALL events ("Ctl.Method" and raw args JSON) and AUTH events of a response.
+func (r Response) Calls() (names []string, args []string, auths []string) {
+	for _, ev := range r.Events {
+		if strings.HasPrefix(ev, "CALL ") {
+			f := strings.SplitN(ev, " ", 4)
+			names = append(names, f[1])
+			if len(f) == 4 {
+				args = append(args, strings.TrimPrefix(f[3], "args="))
+			} else {
+				args = append(args, "")
+			}
+		}
+		if strings.HasPrefix(ev, "AUTH ") {
+			auths = append(auths, strings.TrimPrefix(ev, "AUTH "))
+		}
+	}
+	return
+}
+
+// CtxState returns the ctx=... marker of the first CALL event.
+func (r Response) CtxState() string {
+	for _, ev := range r.Events {
+		if strings.HasPrefix(ev, "CALL ") {
+			for _, f := range strings.Fields(ev) {
+				if strings.HasPrefix(f, "ctx=") {
+					return strings.TrimPrefix(f, "ctx=")
+				}
+			}
+		}
+	}
+	return ""
+}
